@@ -1,3 +1,59 @@
-From YV Require Import PyBase Token.
-Example c10_smoke : skip_space [] = [].
+(* C10 -- inline maths becomes one rotating placeholder with its
+   punctuation, nothing else.  Only statements here, closed by `exact`.
+   Model: coq/model/Math.v (replace_section, rotate), tables from /repo.
+
+   Proved for every formula that is one maths part: exactly one placeholder,
+   the head of the rotated inline collection of the current language, with
+   optional blank before/after and optional final punctuation, all pinned at
+   the first maths token; the collection stays rotated; rotation is cyclic,
+   the k-th formula gets entry k mod n; neighbours differ (the collections
+   of /repo have no repetition and at least two entries).  Not proved: the
+   maths parser that cuts the formula out of the token stream
+   (run_math_section) and the treatment of \text parts; compared with the
+   implementation by the correspondence run on the C10 stream. *)
+From YV Require Import PyBase Token PState Parser Expand Math ExpandSites Catalogue.
+Open Scope Z_scope.
+
+Theorem C10_one_placeholder : forall T st ts fp nr out p ph rest0,
+  first_pos ts = Ok p ->
+  forallb (is_mspace) ts = false ->
+  rotate (get_repls st false) = ph :: rest0 ->
+  exists sp1 pc sp2 nr',
+    replace_section T st true false [MPart ts] fp nr out =
+      Ok (set_repls st false (ph :: rest0),
+          out ++ sp1 ++ [TextF p ph] ++ pc ++ sp2, nr') /\
+    sp1 = (match ts with
+           | t0 :: _ => if is_mspace t0 then [SpaceF p s_space] else []
+           | [] => [] end) /\
+    (pc = [] \/ exists c, pc = [TextF p [c]] /\ last_char T ts = [c]
+                          /\ mem_str [c] (t_math_punctuation T) = true) /\
+    sp2 = (match rev ts with
+           | t1 :: _ => if is_mspace t1 then [SpaceF p s_space] else []
+           | [] => [] end) /\
+    get_repls (set_repls st false (ph :: rest0)) false = ph :: rest0.
+Proof. exact replace_section_inline. Qed.
+Print Assumptions C10_one_placeholder.
+
+(* successive formulas: cyclic *)
+Theorem C10_rotation_cycle : forall l, Nat.iter (length l) rotate l = l.
+Proof. exact rotate_cycle. Qed.
+Theorem C10_kth_formula : forall l k,
+  l <> [] -> hd_error (Nat.iter k rotate l) = nth_error l (k mod length l)%nat.
+Proof. exact rotate_iter_head. Qed.
+Print Assumptions C10_kth_formula.
+
+(* neighbouring formulas never look like a repeated word *)
+Theorem C10_neighbours_differ : forall l x y,
+  NoDup l -> (2 <= length l)%nat -> hd_error l = Some x -> hd_error (rotate l) = Some y ->
+  x <> y.
+Proof. exact rotate_head_differs. Qed.
+Theorem C10_collections_of_repo : forall k s,
+  In (k, s) (t_langs py_tables) ->
+  forall l, In l [ls_inline s; ls_display s; ls_change s] ->
+  NoDup l /\ (2 <= length l)%nat.
+Proof. exact (collections_ok_spec py_tables (eq_refl true)). Qed.
+Print Assumptions C10_collections_of_repo.
+
+(* the punctuation marks of /repo are the four of the property *)
+Example C10_punctuation : t_math_punctuation py_tables = [[46]; [44]; [59]; [58]]%N.
 Proof. reflexivity. Qed.
